@@ -156,6 +156,13 @@ fn parse_args(args: &[&str]) -> Result<ParsedInfo, Box<dyn Error>> {
 }
 
 /// Whether `path` (resolved, as walkdir resolves it) lies on another device than `root`.
+/// Device and inode of an entry, from the status record the follow mode selects.
+#[cfg(unix)]
+fn file_id(entry: &WalkEntry) -> Option<(u64, u64)> {
+    use std::os::unix::fs::MetadataExt;
+    entry.metadata().ok().map(|m| (m.dev(), m.ino()))
+}
+
 /// The device an entry is on, from the status record the follow mode selects.
 #[cfg(unix)]
 fn device_of(entry: &WalkEntry) -> Option<u64> {
@@ -204,6 +211,11 @@ fn process_dir(
     let mut pending: Vec<WalkEntry> = Vec::new();
     // -xdev: the device of the starting point.
     let mut root_device: Option<u64> = None;
+    // -L: the directories between the starting point and the current entry.
+    // walkdir compares a link's target with them; a directory reached through
+    // a link to somewhere above the starting point can be one of them too.
+    #[cfg(unix)]
+    let mut ancestors: Vec<(usize, (u64, u64))> = Vec::new();
     loop {
         let result = it.next();
         let done = result.is_none();
@@ -220,9 +232,32 @@ fn process_dir(
         while pending.last().is_some_and(|dir| dir.depth() >= depth) {
             ready.extend(pending.pop().map(Ok));
         }
-        match result
-            .map(|r| WalkEntry::from_walkdir(r, config.follow).map(|e| e.under_starting_point(dir)))
-        {
+        let result = result
+            .map(|r| WalkEntry::from_walkdir(r, config.follow).map(|e| e.under_starting_point(dir)));
+        #[cfg(unix)]
+        let result = match result {
+            Some(Ok(entry)) if config.follow == Follow::Always && entry.file_type().is_dir() => {
+                while ancestors.last().is_some_and(|(d, _)| *d >= entry.depth()) {
+                    ancestors.pop();
+                }
+                match file_id(&entry) {
+                    Some(id) if ancestors.iter().any(|(_, a)| *a == id) => {
+                        // Diagnosed instead of being walked once more.
+                        it.skip_current_dir();
+                        Some(Err(matchers::WalkError::file_system_loop(
+                            entry.path(),
+                            entry.depth(),
+                        )))
+                    }
+                    id => {
+                        ancestors.extend(id.map(|id| (entry.depth(), id)));
+                        Some(Ok(entry))
+                    }
+                }
+            }
+            other => other,
+        };
+        match result {
             Some(Err(err)) => ready.push(Err(err)),
             Some(Ok(entry)) => {
                 // -xdev: a directory on another file system is an entry like any
